@@ -97,9 +97,9 @@ def run(tier, seed):
     pack = Pack('C07', tier, seed)
     pack.trust('convergence theorem of the trapezoid / backward-Euler rule for index-1 DAEs (assumed mathematics)',
                'GENCLS.xq is an ExtService aliasing the device\'s own xd1 (link resolution: C10)')
-    pack.assume('no trajectory is ever compared: closeness to a reference is a numerical-analysis statement over whole '
-                'histories that no per-call contract expresses; decided here are only the premises of that theorem '
-                '(model = textbook, integrator = rule, events at exact times, Jacobians = derivatives)')
+    pack.assume('closeness of a trajectory to a reference is a numerical-analysis statement over whole histories that no per-call '
+                'contract expresses; decided by proof are only the premises of that theorem (model = textbook, integrator = rule, '
+                'events at exact times, Jacobians = derivatives); trajectories are compared only by the bounded stand-ins below')
     own_obligations(pack)
     from contracts import C07_imports
     C07_imports.add_obligations(pack, tier, seed)
@@ -114,4 +114,14 @@ def run(tier, seed):
                                      'against a DOP853 solution of the two-machine classical model'})
         if bad:
             pack.violation(name, {'bounded': True, 'inputs': bad, 'native_cmd': 'contracts/bounded_smib.py'})
+    from contracts import bounded_smallsignal as BL
+    name = 'C07/andes/routines/tds.py:TDS.run/bounded:small-displacement-follows-the-linearised-solution'
+    r = native_guard(pack, name, lambda: BL.run(tier))
+    if r is not None:
+        n, bad = r
+        pack.bounded.append({'function': 'TDS.run + EIG.run on kundur_full without events (end to end)', 'runs': n, 'counted_as_proved': False,
+                             'kind': 'bounded native: states displaced by 1e-3 along eigenvectors of the reduced state matrix, 1 s, two step sizes, '
+                                     'against expm(As t) dx0 (scipy)'})
+        if bad:
+            pack.violation(name, {'bounded': True, 'inputs': bad, 'native_cmd': 'contracts/bounded_smallsignal.py'})
     return pack.finish()
